@@ -30,6 +30,7 @@ class ConnPlan:
         return {"terminate": "every waker-holding field of ConnectionState (%s) holding 0 / 1 / 2 wakers; terminate(reason) and close(code, reason)"
                 % ", ".join(n for n, t in self.B.fields() if "Waker" in t),
                 "wake_stream": "a table of 1 / 2 / 3 streams' wakers, an event naming one of them or a stream nobody waits on",
+                "stream_event": "one event (Readable / Writable / Finished / Stopped) naming stream 7; readable / writable / stopped each hold a waker for streams 7 and 9",
                 "poll functions": "1 call, before or after termination, both directions, quinn-proto answering nothing / something"}
 
     def validate(self, tier):
